@@ -391,9 +391,20 @@ theorem float_significand_tie_even (n d : Nat) (hd : 0 < d) (htie : 2 * (n % d) 
 theorem float_significand_exact (q d : Nat) (hd : 0 < d) : roundHalfEven (q * d) d = q :=
   roundHalfEven_exact q d hd
 
+/-- the binade `roundToFloat` works in is the one of the exact value: `2^e ≤ num/den < 2^(e+1)` for `e = floorLog2 num den`
+    (stated through `geePow2`, which compares without dividing) -/
+theorem float_binade_exact (num den : Nat) (hn : 0 < num) (hd : 0 < den) :
+    geePow2 num den (floorLog2 num den) = true ∧ geePow2 num den (floorLog2 num den + 1) = false :=
+  floorLog2_spec num den hn hd
+
+/-- and rounding cannot leave the binade by more than the carry into the next one: a scaled value in `[2^(p-1), 2^p)` is
+    rounded to a significand in `[2^(p-1), 2^p]` (the upper end is the carry the encoding absorbs) -/
+theorem float_significand_in_binade (n d p : Nat) (hd : 0 < d) (h1 : 2 ^ (p - 1) * d ≤ n) (h2 : n < 2 ^ p * d) :
+    2 ^ (p - 1) ≤ roundHalfEven n d ∧ roundHalfEven n d ≤ 2 ^ p :=
+  roundHalfEven_range n d _ _ hd h1 h2
+
 /-- PARTIAL: the full statement for float fields — the bit pattern `parseFloat` returns denotes a value of the format nearest
-    to the decimal the client encoded — additionally needs that `roundToFloat` picks the binade of the exact value
-    (`floorLog2`), that the encoding `(e' − emin)·2^(p−1) + q` is the IEEE one across the subnormal / normal / carry /
+    to the decimal the client encoded — additionally needs that the encoding `(e' − emin)·2^(p−1) + q` is the IEEE one across the subnormal / normal / carry /
     overflow cases, and that the neighbours in the adjacent binades are no closer. Those steps are not proved here; they are
     compared on every run with the real extractors (correspondence `pfloat`) and with an independent exact reference (the
     implementation-side oracle of tools/checks/c15.py). The inputs below are decided by the kernel. -/
